@@ -103,6 +103,11 @@ def uses_ok(fn, names, allow_return=False):
 
 
 def r1(chk):
+    aud.keeps_no_state(chk, "C14.R1", AU, ["CVR.rcv_lfunc_wo", "CVR.rcv_votefor_cand", "CVR.get_vote_for", "CVR.has_contest"],
+                       "a ballot predicate is a function of the ballot's current ranking")
+    aud.keeps_no_state(chk, "C14.R1", RU, ["NEBAssertion.is_vote_for_winner", "NEBAssertion.is_vote_for_loser", "NENAssertion.is_vote_for_winner",
+                                           "NENAssertion.is_vote_for_loser", "vote_for_cand", "ranking"],
+                       "a ballot predicate is a function of the ballot's current ranking")
     idx = chk.idx
     targets = [(REL, "CVR.rcv_lfunc_wo", False), (REL, "CVR.rcv_votefor_cand", False), (RU, "ranking", True), (RU, "vote_for_cand", False),
                (RU, "NEBAssertion.is_vote_for_winner", False), (RU, "NEBAssertion.is_vote_for_loser", False),
